@@ -19,7 +19,7 @@ col_name = (
     )
 )
 
-ref_inline = pp.Literal("ref:") - relation('type') - col_name
+ref_inline = pp.CaselessLiteral("ref:") - relation('type') - col_name
 
 
 def parse_inline_relation(s, loc, tok):
